@@ -1163,3 +1163,7 @@ mod tests {
         );
     }
 }
+
+#[cfg(feature = "pendulum_project_ntpd_rs_verif")]
+#[path = "/verif/hooks/statime-algo/estimator.rs"]
+pub mod vh_estimator;
